@@ -27,7 +27,7 @@ func init() {
 		"what the client receives after responses were already sent (protocol carriers, see C02), runtime behaviour of recover across goroutines, RST mapping of the abort sentinel.")
 
 	prop("C07", "Whatever a client sends, the handler rejects it safely",
-		[]string{"serve-guards", "close-once-after-accept", "receive-before-user", "timeout-handler", "no-explicit-panic"},
+		[]string{"serve-guards", "close-once-after-accept", "receive-before-user", "timeout-handler", "clean-eof-only-at-boundary", "copyn-loop", "no-explicit-panic"},
 		"(1) ServeHTTP reaches user code at one call site, outside loops, only under: POST, not (bidi over HTTP/1.x), protocol selected by exact Content-Type lookup, successful NewConn, valid timeout; rejected requests get 405+Allow / 505 / 415+Accept-Post and never reach user code; "+
 			"(2) once a protocol is selected every exit passes exactly one Close of the conn, and each handler NewConn fails only after Close(non-nil error), so the answer is always formatted by the selected protocol; "+
 			"(3) a message holder passed to Receive is handed to user code only on paths where Receive returned nil; (4) no explicit panic outside the recover interceptor's re-panic.",
@@ -76,4 +76,17 @@ func init() {
 		"(1) every client Receive returns an error that may wrap a bare transport EOF only with a terminator witness (special-envelope sentinel, grpc-status present in trailers or trailers-only headers, or complete unary body), and grpcErrorFromTrailer reports OK only when the status header was present; "+
 			"(2) the envelope reader produces an EOF-wrapping error only when zero bytes of a frame were read, never mid-prefix or mid-payload; (3) a short payload never yields a success return; (4) receiveUnaryResponse succeeds only after its second Receive reported EOF on that call's own error; (5) no I/O error result is silently dropped outside enumerated cleanup calls.",
 		"every cut offset x fault kind as a run-time enumeration, 'nothing hangs', behaviour of the k-th failing write.")
+
+	prop("C02", "Handler errors reach the client with code, message, details and metadata",
+		[]string{"err-fields", "unary-error-status", "default-code", "coded-wrapper-exhaustive", "ctx-code-table", "multi-value", "http-code-tables"},
+		"(1) per protocol family every field of connect.Error is read in the handler Close call tree and stored in the client validateResponse/Receive call tree, and every field of the wire messages (errorv1.Error, statusv1.Status) is written by the encoder and read by the decoder (a dropped details/message/metadata hop leaves a hole); "+
+			"(2) a failed unary Connect call writes application/json and WriteHeader(connectCodeToHTTP(CodeOf(err))) before the body, and that table only returns 4xx/5xx; (3) a non-*Error is encoded as unknown with its own text; "+
+			"(4) handler errors pass toWire = wrapIfContextError, which leaves already-coded errors untouched, and every conn handed to callers is wrapped so results are coded; (5) header loops keep all values of every metadata key.",
+		"byte identity of messages through percent-encoding and net/http header sanitising, order of details, the 16 codes x protocols x kinds product at run time.")
+	prop("C15", "Cancellation and expiry surface as canceled / deadline_exceeded everywhere",
+		[]string{"ctx-before-io", "ctx-first-wrapper", "ctx-code-table", "coded-wrapper-exhaustive"},
+		"(1) duplexHTTPCall.Write/Read test ctx.Err() before touching the pipe/body and on a context error call SetError and return wrapIfContextError(err); the unary handler adapter tests ctx.Err() before user code; "+
+			"(2) makeRequest classifies the transport error as a context error first and applies the unavailable fallback only to still-uncoded errors; SetError stores the context-classified error and keeps the first one; "+
+			"(3) wrapIfContextError maps exactly Canceled->canceled and DeadlineExceeded->deadline_exceeded and leaves coded errors alone, wrapIfUncoded applies it before unknown, RST CANCEL maps to canceled; (4) handler-returned context errors go through toWire and all client results through wrapIfUncoded.",
+		"all cancellation instants, what net/http returns when a context ends mid-read, whether the handler's context is cancelled by the transport.")
 }
